@@ -49,7 +49,7 @@ ASSUMPTIONS = ["PeerId::random() placeholders pushed by KBucket::entry never hav
 KEEP_PREFIX = 1
 BITS = 256
 KS = [0, 1, 19, 20, 21, 60]
-MUTATING = ("add", "connected", "dialfail", "disconnected", "entry", "local")
+MUTATING = ("add", "connected", "dialfail", "dialfailall", "disconnected", "entry", "local")
 
 
 def hx(n):
@@ -119,8 +119,10 @@ class Gen:
             self.ops.append(f"connected {p} {k} {rng.choice('01')}")
         elif r < 0.75:
             self.ops.append(f"disconnected {p} {k}")
-        elif r < 0.88:
+        elif r < 0.84:
             self.ops.append(f"dialfail {p} {k} {rng.choice([0, 1, 2])}")
+        elif r < 0.90:
+            self.ops.append(f"dialfailall {p} {k}")      # a (late) dial failure naming every known address of the peer
         else:
             self.ops.append(f"entry {p} {k}")
 
@@ -307,7 +309,7 @@ def oracle(case, out):
             if t[0] == "local":
                 local = int(t[1], 16)
                 keys, seen, dumped = {}, {}, None
-            elif t[0] in ("add", "connected", "dialfail", "disconnected", "entry"):
+            elif t[0] in ("add", "connected", "dialfail", "dialfailall", "disconnected", "entry"):
                 dumped = None
                 p, k = int(t[1]), int(t[2], 16)
                 keys.setdefault(p, k)
